@@ -3,6 +3,7 @@
  *                                       specs/inst_container4.cpp, which contains nothing but the explicit instantiation)
  *   src/pomerol/Index.cpp              IndexCombination4 constructor, operator<, operator==
  *   src/pomerol/Misc.cpp               permutations4[24]
+ *   src/pomerol/TwoParticleGFContainer.cpp   prepareAll, computeAll_nosplit, computeAll (section (c))
  *
  * History quantifier of C13: INV and INV2 below are pre- AND post-condition of every public operation
  * (set, operator(), isInContainer) from every state, and fill establishes them from ANY prior state; hence they
@@ -42,7 +43,9 @@ typedef struct EWPF EWPF;
  * An element is created by pSource->createElement(K) (monitor below); K is its "creator quadruple".  The
  * shared pointer carries a ghost copy of the creator quadruple of the object it points to (immutable after
  * construction), so that the invariants do not dereference element pointers. */
-struct TwoParticleGF { IC4 creator; };
+struct TwoParticleGF { IC4 creator;
+  /* (addition for prepareAll / computeAll) the members the container's bulk calls write or depend on */
+  double ReduceResonanceTolerance, CoefficientTolerance, MultiTermCoefficientTolerance; unsigned int Status; };
 typedef struct GF2Ptr { struct TwoParticleGF *p; /* ghost */ IC4 creator; } GF2Ptr;
 static inline GF2Ptr GF2Ptr_ctor1(struct TwoParticleGF *raw)
 {
@@ -112,7 +115,7 @@ typedef struct EPair { IC4 first; EWPF second; } EPair;
 typedef struct NPair { IC4 first; GF2Ptr second; } NPair;
 typedef struct EMap { int gpresent; EPair g; EPair other; } EMap;      /* gpresent: 0 / 1 */
 typedef struct NMap { int gpresent; NPair g; NPair other; } NMap;
-typedef struct EMapIt { EMap *m; int pos; } EMapIt;            /* pos: 0 = end(), 1 = entry of the ghost key, 2 = entry of another key */
+typedef struct EMapIt { EMap *m; int pos; long idx; } EMapIt;  /* pos: 0 = end(), 1 = entry of the ghost key, 2 = entry of another key; idx: position in key order (iteration only) */
 typedef struct EInsRes { EMapIt first; _Bool second; } EInsRes;
 static inline IC4 ic4_of_val(IC4 x) { return x; }
 static inline IC4 ic4_of_ptr(IC4 *x) { return *x; }
@@ -185,7 +188,7 @@ static inline ISet *ISet_assign(ISet *a, ISet *b) { *a = *b; return a; }
   &iset_cur; })
 
 //@tu /verif/specs/inst_container4.cpp
-//@struct Pomerol::IndexContainer4<Pomerol::TwoParticleGF,Pomerol::TwoParticleGFContainer> only=pSource,ElementsMap,NonTrivialElements
+//@struct Pomerol::TwoParticleGFContainer only=pSource,ElementsMap,NonTrivialElements,ReduceResonanceTolerance,CoefficientTolerance,MultiTermCoefficientTolerance
 
 /* MONITOR: pSource->createElement(K) -- `new TwoParticleGF(...)` for the quadruple K */
 struct TwoParticleGFContainer *g_self;
@@ -401,16 +404,232 @@ void h_IC4C_fill(void)
   REACH("exit");
 }
 
+/* ======================= (c) TwoParticleGFContainer::prepareAll, computeAll_nosplit, computeAll =======================
+ * C13: "after a bulk computation every element the container lists is evaluable".  Stated for the entry of the ONE ghost key g_X
+ * of ElementsMap (arbitrary => every entry):
+ *   prepareAll(I):       the history invariants INV, INV2 hold afterwards; every key listed in I is in the container; the element
+ *                        of entry X receives the container's three tolerances and is then prepared (prepare() returns normally,
+ *                        Status >= Prepared), exactly once through this entry; if an operator is not prepared, prepare() throws
+ *                        and prepareAll propagates the exception (invariants still hold).
+ *   computeAll_nosplit:  compute(clearTerms, freqs, comm) is called exactly once on the element of entry X, with the arguments of
+ *                        the bulk call; it is Computed afterwards; the returned table maps X to the vector that call returned
+ *                        (and contains no key that is not in ElementsMap); the two maps are not modified (frame).
+ *   computeAll:          split ? computeAll_split(same arguments) : computeAll_nosplit(same arguments), nothing else.
+ *
+ * Elements are NOT heap objects here (pointer-free ghost state): the element that the ghost entry's shared pointer refers to
+ * is the ghost object g_gel, the element of the entry at any other position is the scratch object g_oel (refreshed at every
+ * step).  The link is the extracted conversion operator ElementWithPermFreq::operator ElementType&() (`return *pElement`) with
+ * shared_ptr::operator* modelled by el_deref below.  An element reachable through several entries (aliases) is written through
+ * each of them; every such write/call is covered because it happens through SOME entry and the ghost entry is arbitrary.
+ * TwoParticleGF::prepare / compute are MONITORS carrying the Status clauses of the contracts proved in specs/tpgf.c
+ * (h_TPGF_prepare, h_TPGF_compute). */
+//@type std::vector<boost::(tuples::)?tuple<std::complex<double>, std::complex<double>, std::complex<double>.*|std::vector<boost::(tuples::)?tuple<(Pomerol::)?ComplexType, (Pomerol::)?ComplexType, (Pomerol::)?ComplexType> ?> => FreqVec ptr
+//@type std::vector<std::complex<double>(, std::allocator<std::complex<double> ?>)?>|std::vector<(Pomerol::)?ComplexType(, .*)?> => CVecOut val
+//@type std::map<(Pomerol::)?IndexCombination4, std::vector<.*> => OutMap val
+//@type std::pair<(const )?(Pomerol::)?IndexCombination4, std::vector<.*> => OPair val
+//@type boost::mpi::communicator => Comm ptr
+//@tu src/pomerol/TwoParticleGFContainer.cpp
+//@enum ComputableObject::
+
+/* ---- TRUSTED MODEL (addition): iteration over std::map<IndexCombination4,...>.  begin()/++ visit every entry exactly once in
+ * key order.  View: emap_n entries, the entry of the ghost key (if present) at position emap_gpos; both unknown, drawn at
+ * begin() and fixed afterwards (no insert/clear happens inside the loops of prepareAll / computeAll_nosplit: the frame
+ * conditions show it).  Entries at other positions: key not equivalent to g_X, everything else nondeterministic. */
+long emap_n, emap_gpos;
+#define EMAP_MAXN (1L << 40)
+#define EMAP_POS(m, i) ((i) >= emap_n ? 0 : (((m)->gpresent && (i) == emap_gpos) ? 1 : 2))
+struct TwoParticleGF g_gel, g_oel;   /* the element of the ghost entry; the element of the entry at another position (scratch) */
+static inline void emap_other_entry(EMap *m)
+{
+  IC4 k = nondet_ic4();
+  __CPROVER_assume(!ic4_equiv(k, g_X));   /* ASSUMED (std::map): keys are pairwise inequivalent */
+  m->other = nondet_epair(k);
+  g_oel.ReduceResonanceTolerance = nondet_double(); g_oel.CoefficientTolerance = nondet_double();
+  g_oel.MultiTermCoefficientTolerance = nondet_double(); g_oel.Status = nondet_uint();
+}
+static inline EMapIt EMap_begin(EMap *m)
+{
+  emap_n = nondet_long(); emap_gpos = nondet_long();
+  __CPROVER_assume(0 <= emap_n && emap_n <= EMAP_MAXN && (m->gpresent ? (0 <= emap_gpos && emap_gpos < emap_n) : emap_gpos == -1));
+  EMapIt it; it.m = m; it.idx = 0; it.pos = EMAP_POS(m, 0);
+  if (it.pos == 2) emap_other_entry(m);
+  return it;
+}
+#define EMapIt_postinc(it) ({ \
+  __CPROVER_assert((it)->pos != 0, "std::map: end() is not incremented"); \
+  (it)->idx++; (it)->pos = EMAP_POS((it)->m, (it)->idx); \
+  if ((it)->pos == 2) emap_other_entry((it)->m); })
+/* boost::shared_ptr<TwoParticleGF>::operator*: ASSERTED non-null for the ghost entry (INV); the object it yields: see above */
+static inline struct TwoParticleGF *el_deref(GF2Ptr *s)
+{
+  if (s == &g_self->ElementsMap.g.second.pElement) {
+    __CPROVER_assert(s->p != (void *)0, "boost::shared_ptr::operator*: the pointer of a listed entry is not null");
+    return &g_gel;
+  }
+  return &g_oel;
+}
+//@rename GF2Ptr_mul => el_deref
+//@function Pomerol::ElementWithPermFreq<Pomerol::TwoParticleGF>::operator Pomerol::TwoParticleGF&() as EWPF_conv_Pomerol_TwoParticleGF
+//@end
+//@rename GF2Ptr_mul => GF2Ptr_mul
+
+/* MONITOR TwoParticleGF::prepare(): contract of specs/tpgf.c (already prepared: nothing; an operator that is not prepared:
+ * exStatusMismatch, status unchanged; otherwise Status = Prepared).  ASSERTED: at the call the element carries the container's
+ * tolerances (prepare() hands them to the parts it creates). */
+double g_tol_rr, g_tol_c, g_tol_mt;      /* ghost copies of the container's tolerances */
+unsigned long g_prep_hits, g_prep_calls;
+void TwoParticleGF_prepare(struct TwoParticleGF *e)
+{
+  __CPROVER_assert(D_SAME(e->ReduceResonanceTolerance, g_tol_rr) && D_SAME(e->CoefficientTolerance, g_tol_c) && D_SAME(e->MultiTermCoefficientTolerance, g_tol_mt),
+                   "C13: an element is prepared with the three tolerances of the container");
+  g_prep_calls++;
+  if (e == &g_gel) { g_prep_hits++; REACH("prepare_ghost"); }
+  if (e->Status >= Prepared) return;
+  if (nondet_bool()) { VERIF_THROW("exStatusMismatch"); return; }
+  e->Status = Prepared;
+}
+#define D_SAME_LV(a, b) (*(const unsigned long *)&(a) == *(const unsigned long *)&(b))
+#define TOLS_COPIED(el, c) (D_SAME_LV((el).ReduceResonanceTolerance, (c)->ReduceResonanceTolerance) && D_SAME_LV((el).CoefficientTolerance, (c)->CoefficientTolerance) && \
+                            D_SAME_LV((el).MultiTermCoefficientTolerance, (c)->MultiTermCoefficientTolerance))
+#define GHOST_TOLS(c) (D_SAME(g_tol_rr, (c)->ReduceResonanceTolerance) && D_SAME(g_tol_c, (c)->CoefficientTolerance) && D_SAME(g_tol_mt, (c)->MultiTermCoefficientTolerance))
+//@maythrow TwoParticleGF_prepare TwoParticleGF_compute
+//@rename TwoParticleGFContainer_fill => IC4C_fill
+//@function Pomerol::TwoParticleGFContainer::prepareAll(std::set<Pomerol::IndexCombination4, std::less<Pomerol::IndexCombination4>, std::allocator<Pomerol::IndexCombination4> > const&) as TPGFC_prepareAll
+//@contract
+/* ANY prior state of the two maps (as for fill) */
+__CPROVER_requires(__CPROVER_is_fresh(self, sizeof(*self)) && self->pSource == self && g_self == self)
+__CPROVER_requires(__CPROVER_is_fresh(InitialIndices, sizeof(*InitialIndices)) && ISet_wf(*InitialIndices))
+__CPROVER_requires(!VERIF_thrown && g_prep_hits == 0 && GHOST_TOLS(self))
+__CPROVER_assigns(EM, NM, g_created, g_created_for, g_created_el, iset_cur, g_all, emap_n, emap_gpos, g_gel, g_oel, g_prep_hits, g_prep_calls, VERIF_thrown)
+/* history invariants (also on the exceptional exit) */
+__CPROVER_ensures(PRES_WF(EM, NM) && INV(EM) && INV2(EM, NM))
+/* (g: key X) every requested key is in the container afterwards */
+__CPROVER_ensures((InitialIndices->n != 0 && InitialIndices->ghas) ==> EM.gpresent)
+/* (g: entry X) its element has the container's tolerances and has been prepared, once through this entry */
+__CPROVER_ensures((!VERIF_thrown && EM.gpresent) ==> (g_prep_hits == 1 && g_gel.Status >= Prepared && TOLS_COPIED(g_gel, self)))
+__CPROVER_ensures(!EM.gpresent ==> g_prep_hits == 0)
+//@loop 1
+__CPROVER_assigns(iter.idx, iter.pos, EM.other, g_gel, g_oel, g_prep_hits, g_prep_calls, VERIF_thrown)
+__CPROVER_loop_invariant(iter.m == &EM && 0 <= iter.idx && iter.idx <= emap_n && iter.pos == EMAP_POS(&EM, iter.idx) && !VERIF_thrown)
+/* the entry at another position has another key */
+__CPROVER_loop_invariant(iter.pos == 2 ==> !KEQ(EM.other.first, g_X))
+__CPROVER_loop_invariant(g_prep_hits == ((EM.gpresent && iter.idx > emap_gpos) ? 1UL : 0UL))
+__CPROVER_loop_invariant((EM.gpresent && iter.idx > emap_gpos) ==> (g_gel.Status >= Prepared && TOLS_COPIED(g_gel, self)))
+__CPROVER_decreases(emap_n - iter.idx)
+//@end
+//@harness h_TPGFC_prepareAll enforce=TPGFC_prepareAll replace=IC4C_fill props=C13 min_obl=1532 reach=4 timeout=300
+void h_TPGFC_prepareAll(void)
+{
+  struct TwoParticleGFContainer *c; ISet *s;
+  TPGFC_prepareAll(c, s);
+  if (VERIF_thrown) REACH("exit_thrown"); else if (g_prep_hits) REACH("exit_prepared"); else REACH("exit_absent");
+}
+
+/* ---- computeAll_nosplit.  Models: FreqVec / Comm opaque (identity = id); std::vector<ComplexType> returned by compute(): identity
+ * (sequence number of the compute() call) + size; the returned std::map<IndexCombination4, std::vector<ComplexType>>: ghost-key
+ * model (presence of g_X and the identity of its vector; ASSUMED as above: insert does not overwrite). */
+typedef struct FreqVec { long id; } FreqVec;
+typedef struct Comm { long id; } Comm;
+typedef struct CVecOut { unsigned long id; long size; } CVecOut;
+typedef struct OPair { IC4 first; CVecOut second; } OPair;
+typedef struct OutMap { int gpresent; unsigned long gval; } OutMap;
+static inline OutMap OutMap_ctor0(void) { OutMap m; m.gpresent = 0; m.gval = 0; return m; }
+static inline OPair OPair_make(IC4 k, CVecOut v) { OPair p; p.first = k; p.second = v; return p; }
+static inline void OutMap_insert(OutMap *m, OPair p)
+{ if (ic4_equiv(p.first, g_X) && !m->gpresent) { m->gpresent = 1; m->gval = p.second.id; } }
+/* MONITOR TwoParticleGF::compute(clear, freqs, comm): contract of specs/tpgf.c (Status < Prepared: exStatusMismatch; already
+ * computed: an EMPTY table, status unchanged; otherwise Status = Computed). */
+_Bool g_clear; long g_freqs_id, g_comm_id;       /* the arguments of the bulk call */
+unsigned long g_comp_hits, g_comp_seq, g_gres;   /* compute() calls on the ghost element, all calls, identity of the ghost element's vector */
+CVecOut TwoParticleGF_compute(struct TwoParticleGF *e, _Bool clear, FreqVec *freqs, Comm *comm)
+{
+  __CPROVER_assert(clear == g_clear && freqs->id == g_freqs_id && comm->id == g_comm_id, "C13: every element is computed with the arguments of the bulk call");
+  CVecOut r; g_comp_seq++; r.id = g_comp_seq; r.size = nondet_long();
+  if (e == &g_gel) { g_comp_hits++; g_gres = r.id; REACH("compute_ghost"); }
+  if (e->Status < Prepared) { VERIF_THROW("exStatusMismatch"); return r; }
+  if (e->Status >= Computed) { r.size = 0; return r; }
+  e->Status = Computed;
+  return r;
+}
+unsigned int g_old_status;    /* Status of the ghost element before the call (old() of a global in an implication) */
+//@free make_pair => OPair_make
+//@function Pomerol::TwoParticleGFContainer::computeAll_nosplit(bool, std::vector<boost::tuples::tuple<std::complex<double>, std::complex<double>, std::complex<double>, boost::tuples::null_type, boost::tuples::null_type, boost::tuples::null_type, boost::tuples::null_type, boost::tuples::null_type, boost::tuples::null_type, boost::tuples::null_type>, std::allocator<boost::tuples::tuple<std::complex<double>, std::complex<double>, std::complex<double>, boost::tuples::null_type, boost::tuples::null_type, boost::tuples::null_type, boost::tuples::null_type, boost::tuples::null_type, boost::tuples::null_type, boost::tuples::null_type> > > const&, boost::mpi::communicator const&) as TPGFC_computeAll_nosplit
+//@contract
+__CPROVER_requires(__CPROVER_is_fresh(self, sizeof(*self)) && g_self == self)
+__CPROVER_requires(__CPROVER_is_fresh(freqs, sizeof(*freqs)) && __CPROVER_is_fresh(comm, sizeof(*comm)))
+__CPROVER_requires(PRES_WF(EM, NM) && INV(EM) && INV2(EM, NM))
+__CPROVER_requires(!VERIF_thrown && g_comp_hits == 0 && g_clear == clearTerms && g_freqs_id == freqs->id && g_comm_id == comm->id && g_old_status == g_gel.Status)
+/* frame: the ghost entry, presence bits and NonTrivialElements are not written => INV, INV2 are preserved */
+__CPROVER_assigns(EM.other, emap_n, emap_gpos, g_gel.Status, g_oel, g_comp_hits, g_comp_seq, g_gres, VERIF_thrown)
+/* (g: entry X) computed exactly once through this entry, with the arguments of the call; the table maps X to that result */
+__CPROVER_ensures((!VERIF_thrown && EM.gpresent) ==> (g_comp_hits == 1 && g_gel.Status >= Computed && __CPROVER_return_value.gpresent && __CPROVER_return_value.gval == g_gres))
+__CPROVER_ensures((!VERIF_thrown && !EM.gpresent) ==> (g_comp_hits == 0 && !__CPROVER_return_value.gpresent))
+/* an element that has not been prepared: exStatusMismatch */
+__CPROVER_ensures((EM.gpresent && g_old_status < Prepared) ==> VERIF_thrown)
+//@loop 1
+__CPROVER_assigns(iter.idx, iter.pos, EM.other, out, g_gel.Status, g_oel, g_comp_hits, g_comp_seq, g_gres, VERIF_thrown)
+__CPROVER_loop_invariant(iter.m == &EM && 0 <= iter.idx && iter.idx <= emap_n && iter.pos == EMAP_POS(&EM, iter.idx) && !VERIF_thrown)
+/* the entry at another position has another key */
+__CPROVER_loop_invariant(iter.pos == 2 ==> !KEQ(EM.other.first, g_X))
+__CPROVER_loop_invariant(g_comp_hits == ((EM.gpresent && iter.idx > emap_gpos) ? 1UL : 0UL))
+__CPROVER_loop_invariant((EM.gpresent && iter.idx > emap_gpos) ? (g_gel.Status >= Computed && g_old_status >= Prepared && out.gpresent == 1 && out.gval == g_gres) : (out.gpresent == 0 && g_gel.Status == g_old_status))
+__CPROVER_decreases(emap_n - iter.idx)
+//@end
+//@free make_pair => NPair_make
+//@harness h_TPGFC_computeAll_nosplit enforce=TPGFC_computeAll_nosplit props=C13 min_obl=880 reach=4 timeout=300
+void h_TPGFC_computeAll_nosplit(void)
+{
+  struct TwoParticleGFContainer *c; _Bool clear; FreqVec *f; Comm *m;
+  OutMap r = TPGFC_computeAll_nosplit(c, clear, f, m);
+  if (VERIF_thrown) REACH("exit_thrown"); else if (g_comp_hits) REACH("exit_computed"); else REACH("exit_absent");
+}
+
+/* ---- computeAll: the dispatch.  computeAll_split is a MONITOR here (not under contract: see REMARKS). */
+unsigned long g_split_calls;
+OutMap TwoParticleGFContainer_computeAll_split(struct TwoParticleGFContainer *self, _Bool clearTerms, FreqVec *freqs, Comm *comm)
+{
+  __CPROVER_assert(self == g_self && clearTerms == g_clear && freqs->id == g_freqs_id && comm->id == g_comm_id, "C13: computeAll hands its arguments to computeAll_split unchanged");
+  g_split_calls++;
+  REACH("split");
+  OutMap m; m.gpresent = nondet_bool() ? 1 : 0; m.gval = nondet_ulong(); return m;
+}
+//@rename TwoParticleGFContainer_computeAll_nosplit => TPGFC_computeAll_nosplit
+//@function Pomerol::TwoParticleGFContainer::computeAll(bool, std::vector<boost::tuples::tuple<std::complex<double>, std::complex<double>, std::complex<double>, boost::tuples::null_type, boost::tuples::null_type, boost::tuples::null_type, boost::tuples::null_type, boost::tuples::null_type, boost::tuples::null_type, boost::tuples::null_type>, std::allocator<boost::tuples::tuple<std::complex<double>, std::complex<double>, std::complex<double>, boost::tuples::null_type, boost::tuples::null_type, boost::tuples::null_type, boost::tuples::null_type, boost::tuples::null_type, boost::tuples::null_type, boost::tuples::null_type> > > const&, boost::mpi::communicator const&, bool) as TPGFC_computeAll
+//@contract
+__CPROVER_requires(__CPROVER_is_fresh(self, sizeof(*self)) && g_self == self)
+__CPROVER_requires(__CPROVER_is_fresh(freqs, sizeof(*freqs)) && __CPROVER_is_fresh(comm, sizeof(*comm)))
+__CPROVER_requires(PRES_WF(EM, NM) && INV(EM) && INV2(EM, NM))
+__CPROVER_requires(!VERIF_thrown && g_comp_hits == 0 && g_split_calls == 0 && g_clear == clearTerms && g_freqs_id == freqs->id && g_comm_id == comm->id && g_old_status == g_gel.Status)
+__CPROVER_assigns(EM.other, emap_n, emap_gpos, g_gel.Status, g_oel, g_comp_hits, g_comp_seq, g_gres, VERIF_thrown, g_split_calls)
+__CPROVER_ensures(split ==> (g_split_calls == 1 && g_comp_hits == 0 && !VERIF_thrown))
+__CPROVER_ensures(!split ==> g_split_calls == 0)
+__CPROVER_ensures((!split && !VERIF_thrown && EM.gpresent) ==> (g_comp_hits == 1 && g_gel.Status >= Computed && __CPROVER_return_value.gpresent && __CPROVER_return_value.gval == g_gres))
+__CPROVER_ensures((!split && !VERIF_thrown && !EM.gpresent) ==> (g_comp_hits == 0 && !__CPROVER_return_value.gpresent))
+//@end
+//@harness h_TPGFC_computeAll enforce=TPGFC_computeAll replace=TPGFC_computeAll_nosplit props=C13 min_obl=982 reach=3 timeout=300
+void h_TPGFC_computeAll(void)
+{
+  struct TwoParticleGFContainer *c; _Bool clear, split; FreqVec *f; Comm *m;
+  OutMap r = TPGFC_computeAll(c, clear, f, m, split);
+  if (split) REACH("exit_split"); else REACH("exit_nosplit");
+}
+
 /* ======================= REMARKS =======================
  * 1. set() is public.  Its contract requires that K is not in the container (fill and operator() test this before
  *    they call it).  Called directly for a key that is present as an ALIAS (permutation 1, 6 or 7), set() leaves the
  *    ElementsMap entry alone (insert does not overwrite) but adds K to NonTrivialElements with a new, otherwise unused
  *    element: INV2 (<=) is then violated at K.  No library code does this; it is a latent hazard of the public API,
  *    not reachable through fill / operator() / prepareAll (proved: they establish the pre-condition).
- * 2. NOT DONE (time): TwoParticleGFContainer::prepareAll / computeAll_nosplit ("every listed element is prepared /
- *    computed").  prepareAll extracts without change to the tools (iteration over ElementsMap, conversion operator
- *    ElementType&()); what is missing is the link "the element of the ghost entry is a live object" through the
- *    replaced contracts of fill/set (is_fresh in ensures + validity in the loop invariant did not close in the time box).
+ * 2. prepareAll / computeAll_nosplit / computeAll (section (c)): elements are pointer-free ghost objects there (the earlier attempt to
+ *    carry "the ghost entry's element is a live heap object" through the replaced contracts of fill/set did not close).  What is
+ *    TRUSTED in addition: the iteration view of std::map (every entry once, in key order; number of entries and position of the
+ *    ghost entry unknown but fixed while the map is not modified) and the Status clauses of TwoParticleGF::prepare / compute
+ *    (proved in specs/tpgf.c).  NOT under contract: computeAll_split (communicator split, broadcast from the colour roots).
+ * 3. computeAll_nosplit iterates ElementsMap, i.e. aliases too: an element that is reachable through k entries has compute() called
+ *    k times; from the second call on compute() returns an EMPTY vector (already computed, contract of specs/tpgf.c), so in the
+ *    returned table only the entry visited first (smallest key) of each element carries the frequency table, the other keys of
+ *    that element map to empty vectors (and no permutation of the frequency arguments is applied to the table).  The returned
+ *    table is not mentioned in C13; evaluability through operator() is not affected.  Reported as a remark, not as a defect.
  *
  * ======================= MUTATION RECORD (scratch copy of /repo; all killed) =======================
  * pre-fix D13 (`NonTrivialElements.clear()` removed from fill): h_IC4C_fill fails IC4C_fill.postcondition.1 (INV2),
@@ -428,4 +647,13 @@ void h_IC4C_fill(void)
  * IndexContainer4::fill (h_IC4C_fill): `if(!isInContainer(*iter))` -> `if(isInContainer(*iter))`: IC4C_set.precondition.3, loop invariant step
  * (equivalent, not counted: removing the `if(!isInContainer(alias))` guards in set -- insert does not overwrite;
  *  `!SameCIndices && !SameCXIndices` -> `||` -- the extra key was inserted by the preceding branch)
+ * TwoParticleGFContainer::prepareAll (h_TPGFC_prepareAll): CoefficientTolerance = ReduceResonanceTolerance: TwoParticleGF_prepare.assertion.1 +
+ *      invariant step (anonymous name TPGFC_prepareAll_wrapped_for_contract_checking.8: tolerances of the ghost element);
+ *      MultiTermCoefficientTolerance assignment removed: same two; prepare() call removed: ..._wrapped_for_contract_checking.7/.8
+ *      (ghost hits / Status >= Prepared); fill() call removed: TPGFC_prepareAll.postcondition.1 (INV/INV2) /.2 (listed => present), el_deref.assertion.1
+ * computeAll_nosplit (h_TPGFC_computeAll_nosplit): compute(false, ...): TwoParticleGF_compute.assertion.1; result not inserted into the
+ *      table: invariant step (..._wrapped_for_contract_checking.8: table maps X to the result of its element)
+ * computeAll (h_TPGFC_computeAll): `if (!split)`: TPGFC_computeAll.postcondition.1-.4; computeAll_nosplit(!clearTerms, ...):
+ *      TPGFC_computeAll_nosplit.precondition.4
+ * (not decisive, no model: `if (ElementsMap.size()==0) fill(...)`, `++iter != end()` in the loop header -> undefined-function obligations fail)
  */
